@@ -307,6 +307,8 @@ class Evaluator:
                 return ("lit", q if op == "/" else x - q * y)
         if self.ints and a[0] == "lit" and b[0] == "lit" and isinstance(a[1], str) and isinstance(b[1], str) and op in ("==", "!="):
             return mk_bool((a[1] == b[1]) == (op == "=="))
+        if self.ints and op in ("==", "!=") and a[0] == "v" and b[0] == "v" and self.concrete(a) and self.concrete(b):
+            return mk_bool((a == b) == (op == "=="))      # structural equality of fully known values (`x == Some(true)`)
         if op in ("==", "!=", "<", "<=", ">", ">="):
             # comparison with an Ordering constant
             for x, y, flip in ((a, b, False), (b, a, True)):
@@ -652,6 +654,23 @@ class Evaluator:
                         yield s2, (o if r == mk_bool(True) else none if r == mk_bool(False) else ("ite", r, o, none))
                     else:
                         yield s2, r
+        elif c.startswith("core::option::Option") and method in ("map_or", "map_or_else") and len(args) == 3 and args[2][0] == "closure" and len(args[2]) == 4:
+            forks = [(s, a0)] if is_opt(a0) else [(s.fork(("if-let", "Some(_)", self.short(a0), True)), some(("payload", 0, a0))), (s.fork(("if-let", "Some(_)", self.short(a0), False)), none)]
+            for s1, o in forks:
+                if o[1] == "None":
+                    if method == "map_or":
+                        yield s1, args[1]
+                    elif args[1][0] == "closure" and len(args[1]) == 4:
+                        yield from self.apply_closure(args[1], [], s1)
+                    else:
+                        yield s1, ("call", None, [args[1]])
+                else:
+                    yield from self.apply_closure(args[2], [o[2][0]], s1)
+        elif c.startswith("core::option::Option") and method == "unwrap_or_else" and len(args) == 2 and is_opt(a0) and args[1][0] == "closure" and len(args[1]) == 4:
+            if a0[1] == "Some":
+                yield s, a0[2][0]
+            else:
+                yield from self.apply_closure(args[1], [], s)
         elif c.startswith("core::bool::<impl bool>::then") and len(args) == 2:
             conds = [(s, a0)] if a0[0] == "bool" else [(s.fork(("if", self.short(a0), True)), mk_bool(True)), (s.fork(("if", self.short(a0), False)), mk_bool(False))]
             for s1, b in conds:
